@@ -73,6 +73,7 @@ def work(shard, rec):
     if shard["kind"] == "grammar":
         return grammar(shard, rec, lib)
     rnd = G.rng("c13", shard["seed"], shard["idx"])
+    alias_backgrounds(rec, lib, rnd)
     for i in range(shard["n"]):
         fg = G.uniform(rnd) if i % 5 else rnd.choice([(0, 0, 0), (255, 255, 255), (255, 0, 0), (128, 128, 128)])
         bgc = G.uniform(rnd) if i % 7 else rnd.choice([(0, 0, 0), (255, 255, 255), (17, 17, 17)])
@@ -178,7 +179,50 @@ def work(shard, rec):
             rec.sample({"text": SP.jsonable(text), "bg": SP.jsonable(bg), "library_composite": list(trgb), "exact_blend": [round(float(e), 3) for e in exact], "is_readable": pair.is_readable})
 
 
+def alias_backgrounds(rec, lib, rnd):
+    """Backgrounds given as 0/1 tuples: ints are near-black channels, floats are fractions of full scale (white, red, ...),
+    bools are ints. The twin that compares equal is parsed first - also indirectly, through a hex colour of the same value
+    being fixed - then translucent text is composited over the other one."""
+    for rep in range(24):
+        bits = [rnd.choice([0, 1]) for _ in range(3)]
+        if sum(bits) == 0:
+            bits[rnd.randrange(3)] = 1
+        ints, floats = tuple(bits), tuple(float(x) for x in bits)
+        first, second = (ints, floats) if rep % 2 == 0 else (floats, ints)
+        den = lambda tup: tuple(255 * int(x) for x in tup) if isinstance(tup[0], float) else tuple(int(x) for x in tup)
+        text = rnd.choice(["rgba(0, 0, 0, 0.6)", "rgba(255, 255, 255, 0.5)", (200, 30, 30, 0.5), "hsla(120, 100%, 25%, 0.7)"])
+        try:
+            if rep % 3 == 0:
+                lib.ColorPair("#777777", "#%02x%02x%02x" % den(first)).make_readable()      # parses the int tuple internally
+            lib.ColorPair(text, first).make_readable(mode=rep % 3)
+            pair = lib.ColorPair(text, second)
+            trgb, brgb = pair.text.rgb, pair.bg.rgb
+        except Exception as e:
+            rec.violation(f"alias background sequence raised {type(e).__name__}: {e}", {"alias": True, "first": repr(first), "second": repr(second), "text": repr(text)})
+            continue
+        rec.ev()
+        rec.count("alias_background_judged")
+        want_bg = den(second)
+        ref = csscolor.parse(text) if isinstance(text, str) else None
+        fg = ref.rgb if ref else tuple(Fraction(v) for v in text[:3])
+        al = ref.alpha if ref else Fraction(str(text[3]))
+        exact = csscolor.blend(fg, al, want_bg)
+        dev = None if trgb is None else max(abs(float(e) - c) for e, c in zip(exact, trgb))
+        if tuple(brgb or ()) != want_bg or dev is None or dev > BLEND_TOL:
+            rec.violation(f"after a pair on background {first!r}: ColorPair({text!r}, {second!r}) sees background {brgb} (it denotes {want_bg}) and composites "
+                          f"the text to {trgb}; exact blend {[round(float(e), 2) for e in exact]}", {"alias": True, "first": repr(first), "second": repr(second), "text": repr(text)})
+        rec.nontrivial(("alias", first, second, repr(text)))
+
+
 def replay(case):
+    if case.get("alias"):
+        from cmv.lib import Lib
+        lib = Lib()
+        first, second, text = eval(case["first"]), eval(case["second"]), eval(case["text"])
+        lib.ColorPair(text, first).make_readable()
+        p = lib.ColorPair(text, second)
+        print(f"after ColorPair({text!r}, {first!r}): ColorPair({text!r}, {second!r}) -> text.rgb {p.text.rgb}, bg.rgb {p.bg.rgb}")
+        return True
     from cmv.lib import Lib
     lib = Lib()
     text = SP.from_json(case["text"], case["tk"])
